@@ -53,14 +53,14 @@ REQUIRED_FEATURES = {
     "quick": dict(
         {f"rule:{r}": 50 for r in _RULES},
         **{
-            "junk-version": 20, "unrelated-branch": 100, "suffix-without-patch-branch": 20, "minor0-branch": 100, "master-absent": 100,
+            "doc-example": 8, "junk-version": 20, "unrelated-branch": 100, "suffix-without-patch-branch": 20, "minor0-branch": 100, "master-absent": 100,
             "git:local-only": 8, "git:fresh-clone": 8, "git:clone-fetch": 8, "git:clone-offline": 8,
             "git-target:prior-minor": 4, "git-target:prior-minor-0": 4, "git-target:exact": 4, "git-target:major": 4, "git-target:master": 4,
             "git-target:tag": 4, "git-target:error": 4, "git-target:local-fallback": 2, "git:switched-branch": 8, "git:already-on-branch": 1,
         },
     ),
 }
-REQUIRED_FEATURES["thorough"] = {k: v * 4 for k, v in REQUIRED_FEATURES["quick"].items()}
+REQUIRED_FEATURES["thorough"] = {k: (v if k == "doc-example" else v * 4) for k, v in REQUIRED_FEATURES["quick"].items()}
 BUDGET = {
     "quick": {"cases": 1600000, "seconds": 35, "git_cases": 24, "universe_max": 3},
     "thorough": {"cases": 40000000, "seconds": 600, "git_cases": 250, "universe_max": 5},
@@ -189,14 +189,27 @@ def fmt(allowed):
     return " or ".join(sorted(("no branch" if a is None else repr(a)) for a in allowed))
 
 
-def shrink_branches(branches, version, clause):
+def witness_of(branches, version, clause):
+    """The witness dict for `clause` failing on this input, or None when it does not fail."""
+    problems, got, exc, rule = check_match(_Null(), branches, version)
+    if not any(p[0] == clause for p in problems):
+        return None
+    allowed = reference(branches, version)[0]
+    return {"kind": "match", "branches": list(branches), "version": version, "got": got, "exception": exc, "allowed": sorted(allowed, key=repr), "rule": rule}
+
+
+def shrink_branches(branches, version, clause, key):
+    """Greedy removal of branches while the same clause fails, the documented answer stays the same and the mechanism key stays the same
+    (so shrinking cannot turn a new defect into a known one)."""
     branches = list(branches)
+    documented = reference(branches, version)[0]
     changed = True
     while changed:
         changed = False
         for i in range(len(branches)):
             cand = branches[:i] + branches[i + 1:]
-            if any(p[0] == clause for p in check_match(_Null(), cand, version)[0]):
+            w = witness_of(cand, version, clause)
+            if w is not None and reference(cand, version)[0] == documented and classify({"clause": clause, "witness": w, "msg": ""}) == key:
                 branches, changed = cand, True
                 break
     return branches
@@ -230,16 +243,16 @@ def match_case(ctx, branches, version, sample=True):
     for clause, msg, detail in problems[:3]:
         allowed0 = reference(branches, version)[0]
         w0 = {"kind": "match", "branches": list(branches), "version": version, "got": got, "exception": exc, "allowed": sorted(allowed0, key=repr), "rule": rule}
-        k = classify({"clause": clause, "witness": w0, "msg": msg}) or f"!{clause}"
-        _SHRUNK[k] = _SHRUNK.get(k, 0) + 1
-        if _SHRUNK[k] > 3:  # the runner keeps three witnesses per mechanism; later ones are only counted
+        key = classify({"clause": clause, "witness": w0, "msg": msg})
+        _SHRUNK[(clause, key)] = _SHRUNK.get((clause, key), 0) + 1
+        if _SHRUNK[(clause, key)] > 3:  # the runner keeps three witnesses per mechanism; later ones are only counted
             ctx.violation(clause, w0, msg)
             continue
-        small = shrink_branches(branches, version, clause)
-        allowed, srule = reference(small, version)
-        sgot, sexc = call_best_match(small, version)
-        w = {"kind": "match", "branches": small, "version": version, "got": sgot, "exception": sexc, "allowed": sorted(allowed, key=repr), "rule": srule}
-        ctx.violation(clause, w, msg if small == list(branches) else f"{msg} [shrunk to branches={small}: got {sgot if sexc is None else sexc!r}, documented {fmt(allowed)}]")
+        small = shrink_branches(branches, version, clause, key)
+        w = witness_of(small, version, clause) or w0
+        if w["branches"] != list(branches):
+            msg += f" [shrunk to branches={w['branches']}: {'got ' + repr(w['got']) if w['exception'] is None else 'raised ' + w['exception']}, documented {fmt(set(w['allowed']))}]"
+        ctx.violation(clause, w, msg)
     return problems
 
 
@@ -279,6 +292,31 @@ def run_universe(ctx):
     ctx.exhaustive["small-universe"] = True
     if ctx.shard == 0:
         ctx.note(f"small universe: all subsets of <= {kmax} of {len(names)} names {names} x {len(vs)} versions, partitioned over {ctx.nshards} shards")
+
+
+# ---------------------------------------------------------------------------------------------------------
+# workload 1a': the literal examples of docs/track.rst (they also validate the reference itself) and the two inputs of DESIGN.md section 5 item 3
+DOC_EXAMPLES = [
+    (["master", "7", "7.2", "7.11"], "7.10.2", "7.2"),
+    (["master", "7", "7.2", "7.11"], "7.12.1", "7.11"),
+    (["master", "5", "6", "7"], "7.11.0", "7"),
+    (["master", "7.0.0-beta1", "7.3", "6"], "7.0.0-beta1", "7.0.0-beta1"),
+    (["master", "7.0.0-beta1", "7.3", "6"], "7.3.0", "7.3"),
+    (["master", "7.0.0-beta1", "7.3", "6"], "7.10.2", "7.3"),
+    (["master", "7.0.0-beta1", "7.3", "6"], "6.4.0", "6"),
+    (["master", "7.0.0-beta1", "7.3", "6"], "6.8.13", "6"),
+]
+SEED_INPUTS = [(["8.0", "7", "master"], "8.3.1"), (["7.0", "7.2", "6"], "7.1.0"), (["7", "7-foo", "master"], "7.3.0")]
+
+
+def run_examples(ctx):
+    for branches, version, documented in DOC_EXAMPLES:
+        if reference(branches, version)[0] != {documented}:
+            ctx.mark_inconclusive(f"the reference disagrees with docs/track.rst: {branches}, {version} -> {reference(branches, version)[0]}, documented {documented!r}")
+        match_case(ctx, branches, version, sample=False)
+        ctx.feature("doc-example")
+    for branches, version in SEED_INPUTS:
+        match_case(ctx, branches, version, sample=False)
 
 
 # ---------------------------------------------------------------------------------------------------------
@@ -647,6 +685,10 @@ def run_git_case(ctx, case, idx):
     root = os.path.join(str(ctx.scratch), f"git-{idx}")
     try:
         problems, observed, feats = git_case(ctx, case, root)
+    except Exception as e:  # pylint: disable=broad-except
+        # only building the repositories / reading refs can raise here (update() itself is guarded): not a verdict
+        ctx.mark_inconclusive(f"git case {idx} of shard {ctx.shard} could not be built: {type(e).__name__}: {str(e)[:300]}")
+        return []
     finally:
         shutil.rmtree(root, ignore_errors=True)
     canon = [case[k] for k in ("scenario", "remote", "later_remote", "dropped_remote", "local_only", "tags", "start", "version")]
@@ -677,6 +719,8 @@ def run_shard(ctx):
             ctx.note(f"no git case generated for {scenario}/{target}")
             continue
         run_git_case(ctx, case, j)
+    if ctx.shard == 0:
+        run_examples(ctx)
     run_universe(ctx)
     i = 0
     while ctx.more():
@@ -684,12 +728,15 @@ def run_shard(ctx):
         i += 1
 
 
+_INT_NONE = "TypeError: int() argument must be"  # int(None): components() of a name whose minor/patch group is absent although a suffix matched
+
+
 def classify(v):
     """Mechanism keys for known findings (predicates over the witness)."""
     w = v["witness"]
     if w.get("kind") == "match":
         branches, version = w["branches"], w["version"]
-        if (w.get("exception") or "").startswith("TypeError") and any(_AMBIGUOUS.match(b) for b in branches):
+        if (w.get("exception") or "").startswith(_INT_NONE) and any(_AMBIGUOUS.match(b) for b in branches):
             return "suffix-without-patch-branch-typeerror"
         ver = parse_version(version)
         if v["clause"] == "matches-reference" and ver and w.get("exception") is None:
@@ -704,7 +751,7 @@ def classify(v):
     if w.get("kind") == "git":
         obs, case = w["observed"], w["case"]
         every = obs["local"] + obs["remote_tracking"]
-        if (obs.get("exception") or "").startswith("TypeError") and any(_AMBIGUOUS.match(b) for b in every):
+        if (obs.get("exception") or "").startswith(_INT_NONE) and any(_AMBIGUOUS.match(b) for b in every):
             return "suffix-without-patch-branch-typeerror"
         ver = parse_version(case["version"])
         if ver and v["clause"] == "git-branch-checked-out":
